@@ -183,6 +183,11 @@ impl RequestHandler<Rename> for RenameHandler {
                     let changes = def
                         .definition_and_usages()
                         .into_iter()
+                        .filter(|dl| {
+                            // A 'super' that leads to the symbol is a usage of it, but it does not spell its name
+                            let sl = codegen.analysis().look_up(dl.span);
+                            !Identifier::from(sl.file.source_slice(dl.span)).is_super()
+                        })
                         .map(|dl| {
                             let loc = to_location(codegen.analysis().look_up(dl.span));
 
